@@ -50,4 +50,5 @@ registry! {
     c24::C24,
     c25::C25,
     c26::C26,
+    c28::C28,
 }
